@@ -87,6 +87,18 @@ def run(ctx):
                               ("%s_%s_ecb" % (d, alg), (key, good)),
                               ("%s_%s_cbc" % (d, alg), (key, iv, good)), ("%s_%s_cbc" % (d, alg), (key, iv, rng.randbytes(badlen))),
                               ("%s_%s_cbc" % (d, alg), (key, iv, good))]
+    # structured IVs and data: all-zero / all-FF / repeated blocks / IV equal to the first data block, every block count
+    for alg in ("tdes", "aes"):
+        bs = 8 if alg == "tdes" else 16
+        for ks in KS[alg]:
+            for nb in range(1, 5):
+                for iv in (bytes(bs), b"\xff" * bs, None, None):
+                    key = G.key(rng, ks)
+                    data = G.special_bytes(rng, nb * bs) if iv is not None or rng.random() < 0.5 else rng.randbytes(nb * bs)
+                    iv = iv if iv is not None else rng.choice([data[:bs], data[-bs:], G.special_bytes(rng, bs)])
+                    for d in ("encrypt", "decrypt"):
+                        cases.append(("%s_%s_cbc" % (d, alg), (key, iv, data)))
+                        cases.append(("%s_%s_ecb" % (d, alg), (key, data)))
     from harness import gens
     cases = fw.with_history(rng, cases, gens.variants_generic(rng), fraction=0.1, limit=60)
     # large inputs (nothing buffered, dropped or re-chained at any internal chunk size): impl vs textbook oracle
